@@ -265,7 +265,8 @@ FAMILIES = {
     "vmx": [("encrypted", "encrypted.vmx"), ("plain", None)],
     "xml": [("ovf", None), ("vbox", None), ("pvs", None)],
     "envelope": [("library", None), ("cli", None)],
-    "vmtar": [("sample-handle", "test.vgz"), ("sample-path", "test.vgz"), ("gz-handle", "test.vgz"), ("visortarfile", "test.vgz")],
+    "vmtar": [("sample-handle", "test.vgz"), ("sample-path", "test.vgz"), ("gz-handle", "test.vgz"), ("visortarfile", "test.vgz"),
+              ("synthetic-handle", None), ("synthetic-path", None)],
 }
 DAMAGE = ["none", "trunc-0", "trunc-1", "trunc-512", "trunc-4096", "trunc-half", "trunc-last", "garbage-head", "garbage-mid"]
 
@@ -410,6 +411,13 @@ class AuditSuite(Suite):
         if fam == "envelope":
             paths["main"] = materialise_sample("local.tgz.ve", root)
             paths["keystore"] = materialise_sample("encryption.info", root)
+        if fam == "vmtar" and variant.startswith("synthetic"):
+            from harness.props import c20                      # C20's archive generator: mixed visor / standard members
+            arch = c20.gen_wf(core.Rng(case["seed"]), "quick", with_long=bool(case["seed"] & 1))
+            _, blob = c20.case_bytes(arch)
+            paths["main"] = os.path.join(root, "synthetic.vtar")
+            with open(paths["main"], "wb") as o:
+                o.write(blob)
         if fam == "vmtar" and variant == "gz-handle":
             raw = open(paths["main"], "rb").read()
             paths["main"] = os.path.join(root, "test.real.vgz")
@@ -505,13 +513,15 @@ class AuditSuite(Suite):
             Envelope(H(main)).decrypt(ks.key, aad=b"ESXConfiguration")
         elif fam == "vmtar":
             from dissect.hypervisor.util import vmtar
-            if variant == "sample-path":
+            if variant in ("sample-path", "synthetic-path"):
                 t = vmtar.open(main)
             elif variant == "visortarfile":
                 t = vmtar.VisorTarFile(fileobj=H(main))
             else:
                 t = vmtar.open(fileobj=H(main))
             for m in t.getmembers():
+                if m.islnk() or m.issym():
+                    continue                       # a link's target need not exist in a synthetic archive
                 f = t.extractfile(m)
                 if f is not None:
                     f.read()
